@@ -9,3 +9,4 @@ Definition k_flow_KEKRecipientInfo_unpack : pfun :=
     SAssign ["encrypted_key"] (PMeth "read_octet_string/hint" (PName "reader") [(PStr [75; 69; 75; 82; 101; 99; 105; 112; 105; 101; 110; 116; 73; 110; 102; 111; 46; 101; 110; 99; 114; 121; 112; 116; 101; 100; 75; 101; 121])]);
     SReturn (PCall "KEKRecipientInfo/version,kekid,key_encryption_algorithm,encrypted_key" [(PName "version"); (PName "kekid"); (PName "key_encryption_algorithm"); (PName "encrypted_key")])
   ] |}.
+Definition k_flow_KEKRecipientInfo_unpack_defaults : list (string * pexp) := [("header", PNone)].
